@@ -10,7 +10,7 @@ package util
 // ones; batches are atomic) and then re-run.
 // The persistent store is the in-memory grocksdb stand-in of /verif/stubs (atomic batches assumed).
 // property: C05
-// scope: round 1 = fixed content {0a01,0a02,0b01}; round 2 = every sequence of <= 3 merged child transactions, each one operation (set one of 4 keys to one of 2 values, or delete it); round 3 = fixed transactions that re-create content deleted earlier; prune versions 1..4 with a crash at every write of the prune for sequences of <= 2 (quick) / <= 3 (thorough) transactions
+// scope: two key families ({0a01,0a02,0b01,0b02}: every branch below an extension; {1111,2222,3133,3244}: leaves directly under the root branch); round 1 = fixed content; round 2 = every sequence of <= 3 merged child transactions, each one operation (set one of 4 keys to one of 2 values, or delete it); round 3 = fixed transactions that re-create content deleted earlier; prune versions 1..4 with a crash at every write of the prune for sequences of <= 2 (quick) / <= 3 (thorough) transactions
 
 import (
 	"context"
@@ -166,15 +166,12 @@ func (e *c05env) reach(i int) (map[string]bool, error) {
 }
 
 func TestGocvBoundedC05(t *testing.T) {
-	keys := []string{"0a01", "0a02", "0b01", "0b02"}
+	// two key families: all keys under one shared first nibble (every branch sits below an
+	// extension), and keys spread over the root branch (a lifted leaf stays live under the root)
+	families := [][]string{{"0a01", "0a02", "0b01", "0b02"}, {"1111", "2222", "3133", "3244"}}
+	keys := families[0]
 	vals := []string{"50", "60"}
 	var ops []c05op
-	for _, k := range keys {
-		for _, v := range vals {
-			ops = append(ops, c05op{key: k, val: v})
-		}
-		ops = append(ops, c05op{key: k})
-	}
 	depth, pruneDepth := 3, 2
 	if os.Getenv("VERIF_TIER") == "thorough" {
 		pruneDepth = 3
@@ -188,8 +185,7 @@ func TestGocvBoundedC05(t *testing.T) {
 	}
 	dir := t.TempDir()
 	id := 0
-	round1 := []c05op{{key: "0a01", val: "10"}, {key: "0a02", val: "20"}, {key: "0b01", val: "30"}}
-	round3 := []c05op{{key: "0b02", val: "77"}, {key: "0a01"}, {key: "0a02", val: "20"}, {key: "0a01", val: "10"}}
+	var round1, round3 []c05op
 	// history runs the three rounds and checks (a); it returns the environment and the dead sets
 	history := func(seq []c05op) (*c05env, error) {
 		id++
@@ -296,9 +292,25 @@ func TestGocvBoundedC05(t *testing.T) {
 			rec(append(append([]c05op{}, seq...), o))
 		}
 	}
-	rec(nil)
+	for fi, fam := range families {
+		keys = fam
+		ops = nil
+		for _, k := range keys {
+			for _, v := range vals {
+				ops = append(ops, c05op{key: k, val: v})
+			}
+			ops = append(ops, c05op{key: k})
+		}
+		if fi == 0 {
+			round1 = []c05op{{key: keys[0], val: "10"}, {key: keys[1], val: "20"}, {key: keys[2], val: "30"}}
+		} else {
+			round1 = []c05op{{key: keys[0], val: "10"}, {key: keys[1], val: "20"}, {key: keys[2], val: "30"}, {key: keys[3], val: "40"}}
+		}
+		round3 = []c05op{{key: keys[3], val: "77"}, {key: keys[0]}, {key: keys[1], val: "20"}, {key: keys[0], val: "10"}}
+		rec(nil)
+	}
 	sort.Strings(keys)
-	fmt.Printf("GOCV-BOUNDED cases=%d failures=%d scope=\"3 rounds; round 2: all sequences of <= %d merged single-operation child transactions over keys %v, values %v; round 3 re-creates deleted content; dead sets vs reachability at every later root; for sequences of <= %d transactions also PruneBelowVersion(1..4) with a cut at every write, re-run, reopen on the store alone\"\n", cases, fails, depth, keys, vals, pruneDepth)
+	fmt.Printf("GOCV-BOUNDED cases=%d failures=%d scope=\"3 rounds; round 2: all sequences of <= %d merged single-operation child transactions over two key families (the last: %v), values %v; round 3 re-creates deleted content; dead sets vs reachability at every later root; for sequences of <= %d transactions also PruneBelowVersion(1..4) with a cut at every write, re-run, reopen on the store alone\"\n", cases, fails, depth, keys, vals, pruneDepth)
 	if fails > 0 {
 		t.Fail()
 	}
